@@ -128,7 +128,8 @@ class C15(Prop):
                 "NV.C15.save_tmp_format",
                 "NV.C15.mediated_sites", "NV.C15.inventory_covers_efuns", "NV.C15.efun_surface_modelled",
                 "NV.C15.ext_callees_classified", "NV.C15.fs_callees_cover", "NV.C15.path_function_literals",
-                "NV.C15.efun_libc_table", "NV.C15.binary_model_satisfies_spec", "NV.C15.history_satisfies_spec",
+                "NV.C15.efun_libc_table", "NV.C15.binary_model_satisfies_spec", "NV.C15.history_satisfies_spec", "NV.C15.judge_il_model",
+                "NV.C15.include_path_confined_any_config",
                 "NV.C15.buffer_sizes", "NV.C15.buffer_guards_present", "NV.C15.getdir_path_not_truncated",
                 "NV.C15.getdir_entry_fits", "NV.C15.getdir_long_path_refused", "NV.C15.ed_getfn_exact",
                 "NV.C15.rename_newfrom_fits", "NV.C15.rename_copy_fits", "NV.C15.segOk_entryStats", "NV.C15.segOk_move",
@@ -400,7 +401,9 @@ class C15(Prop):
                                                  "fixed=[//abs]", "fixed=[/]"]
             for s in ["/d/f", "", "/", "//etc", "/../x", "d/./f", "/d/."]] +
            ["usn1 " + br(s) for s in ["//a/b.c.c", "a//b", ".c", "x.c", "/", "", "a.c.cc", "/.c.c", "abc"]] +
-           ["uinc1 %s %s" % (br(b), br(n)) for b in INC_BASES for n in INC_NAMES])
+           ["uinc1 %s %s" % (br(b), br(n)) for b in INC_BASES for n in INC_NAMES] +
+           ["uil1 " + br(l) for l in ["/include", "/include:/", "/", ":", "::", "/a:/b:/c", "/..:/ok", "a/../b:x", "//abs:/d",
+                                      "/include:", ":/include", "/a#b:/c", "/./x:/y/.", "x" * 300 + ":/y", "/include:/sys:/d/sub"]])
         for pol in POL_FULL + POL_FEW + POL_ERR + POL_KIND + ["ABSENT"]:
             mk("edsession-%s" % pol, [pl(pol)] + ["es %s %s" % (br(f), c) for f, c in SESSIONS])
             paths = P1 if pol in POL_FULL else ["/d/f.txt", "/d/sub", "/../outside.txt", "", "/d/nofile"]
@@ -457,6 +460,12 @@ class C15(Prop):
         chunks("cvp-odd", "ucvp odd=[float0] %s %d %d %d", 0, 4)
         for i, b in enumerate(INC_BASES):
             chunks("inc%d" % i, "uinc " + br(b) + " %s %d %d %d", 0, maxlen)
+        # set_inc_list: every configuration string over {a . / :} up to length 6 (quick) / 7 (thorough)
+        for ln in range(0, maxlen - 1):
+            tot = 4 ** ln
+            for frm in range(0, tot, CHUNK):
+                out.append(E.Case("x-il-%d-%d" % (ln, frm), ["uil a./: %d %d %d" % (ln, frm, min(CHUNK, tot - frm))],
+                                  {"origin": "exhaustive"}))
         # system level: every include name over {a . /} up to length 4 from a file in a sub-directory
         names = [""]
         allnames = []
